@@ -81,3 +81,10 @@ Fixpoint slookup {V} (k : string) (m : list (string * V)) : option V :=
 Definition skeys {V} (m : list (string * V)) : list string := map fst m.
 Fixpoint snodup (l : list string) : bool :=
   match l with [] => true | x :: r => negb (existsb (String.eqb x) r) && snodup r end.
+
+(* keys strictly increasing: the canonical representation of a Go map *)
+Fixpoint keys_sorted {V} (m : list (string * V)) : bool :=
+  match m with
+  | a :: ((b :: _) as r) => String.ltb (fst a) (fst b) && keys_sorted r
+  | _ => true
+  end.
